@@ -80,13 +80,14 @@ def mk_numpy(system, rows, momentum=False, shape=None, dtype=numpy.float64, spel
     return vector.array(arr)
 
 
-def mk_numpy_cls(system, rows, momentum=False, shape=None):
+def mk_numpy_cls(system, rows, momentum=False, shape=None, dtype=numpy.float64):
     """Build through .view(cls) so that flavor does not depend on spellings."""
     import vector
 
     dim = len(system) + 1
     names = R.field_names(system)
-    arr = numpy.array([tuple(float(c) for c in row) for row in rows], dtype=[(n, numpy.float64) for n in names])
+    conv = float if numpy.dtype(dtype).kind == "f" else int
+    arr = numpy.array([tuple(conv(c) for c in row) for row in rows], dtype=[(n, dtype) for n in names])
     if shape is not None:
         arr = arr.reshape(shape)
     cls = getattr(vector, ("MomentumNumpy" if momentum else "VectorNumpy") + f"{dim}D")
